@@ -275,7 +275,7 @@ Section MuxProofs.
   Lemma finalize_fresh n b : n_cache S n = None ->
     finalize S n b = reference (n_cfg S n) (n_apps S n) (n_committed S n) b.
   Proof.
-    intros Hc. unfold finalize, snapshot, reference, dispatch. rewrite Hc. cbn [option_map begin_reuses].
+    intros Hc. unfold finalize, working_tree, snapshot, reference, dispatch. rewrite Hc. cbn [option_map begin_reuses].
     destruct (exec_block S _ _ false _ b) as [[s' o]|]; reflexivity.
   Qed.
 
@@ -629,33 +629,41 @@ Section MuxProofs.
         destruct (block_eq_dec b0 b) as [->|Hd].
         * left. unfold dispatch in He. rewrite He. reflexivity.
         * right. exists b0, b. split; [exact Hd|congruence].
-      + left. unfold dispatch. destruct (exec_block S _ _ false _ b) as [[s' o]|]; reflexivity.
-    - left. cbn [begin_reuses]. unfold dispatch. destruct (exec_block S _ _ false _ b) as [[s' o]|]; reflexivity.
+      + left. destruct (Hinv c Ec) as (Hexd & _).
+        unfold working_tree. rewrite Ec, Hexd. cbn [negb]. rewrite andb_false_r.
+        unfold dispatch. destruct (exec_block S _ _ false _ b) as [[s' o]|]; reflexivity.
+    - left. cbn [begin_reuses]. unfold working_tree. rewrite Ec.
+      unfold dispatch. destruct (exec_block S _ _ false _ b) as [[s' o]|]; reflexivity.
   Qed.
 
-  Fixpoint stale_ok (n : node) (sts : list stale) : Prop :=
+  Fixpoint stale_ok (n : node) (sts : list (stale S)) : Prop :=
     match sts with
     | [] => True
     | st :: r =>
       match st with
-      | StalePrepared key hd _ _ _ => meta_wf key (h_proposer hd)
-      | StaleProcessed b' => commit_as_prepared n b'
+      | StalePrepared _ key hd _ _ _ => meta_wf key (h_proposer hd)
+      | StaleProcessed _ b' => commit_as_prepared n b'
+      | StaleAborted _ _ _ => True
       end /\ stale_ok (apply_stale S n st) r
     end.
 
   Lemma apply_stale_inv n st :
     cache_inv n ->
     match st with
-    | StalePrepared key hd _ _ _ => meta_wf key (h_proposer hd)
-    | StaleProcessed b' => commit_as_prepared n b'
+    | StalePrepared _ key hd _ _ _ => meta_wf key (h_proposer hd)
+    | StaleProcessed _ b' => commit_as_prepared n b'
+    | StaleAborted _ _ _ => True
     end ->
     cache_inv (apply_stale S n st) /\ same_base n (apply_stale S n st).
   Proof.
-    intros Hinv Hok. destruct st as [key hd cands cm ms|b']; cbn [apply_stale].
+    intros Hinv Hok. destruct st as [key hd cands cm ms|b'|b' dirty]; cbn [apply_stale].
     - apply prepare_inv. exact Hok.
     - destruct (process_proposal S n b') as [n'|] eqn:Ep.
       + destruct (process_proposal_inv n b' n' Hinv Hok Ep) as (H1 & H2 & _). split; assumption.
       + split; [intros c Hc; discriminate|repeat split].
+    - (* the fact read from mux.go: the panic handler of ProcessProposal resets the proposal *)
+      unfold abort_round. change process_panic_handler_resets with true. cbn iota.
+      split; [intros c Hc; discriminate|repeat split].
   Qed.
 
   Lemma stale_rounds_inv sts : forall n,
@@ -828,10 +836,11 @@ Section MuxProofs.
       reflexivity.
   Qed.
 
-  Definition st_ok (n : node) (st : stale) : Prop :=
+  Definition st_ok (n : node) (st : stale S) : Prop :=
     match st with
-    | StalePrepared key hd _ _ _ => meta_wf key (h_proposer hd)
-    | StaleProcessed b' => commit_as_prepared n b'
+    | StalePrepared _ key hd _ _ _ => meta_wf key (h_proposer hd)
+    | StaleProcessed _ b' => commit_as_prepared n b'
+    | StaleAborted _ _ _ => True
     end.
 
   (* Well-formed histories with failed rounds.  The conditions on a step refer to the node
@@ -903,6 +912,35 @@ Section MuxProofs.
     destruct (run_spec_stale (n_cfg S n1) base ops2 Hnd n2 (n_committed S n2) [] Hi2 Hp2 Ho2) as [E2|C]; [|right; exact C].
     left. rewrite E1, E2, Hs, Hb. reflexivity.
   Qed.
+  (* ---- rounds aborted by a recovered panic ---- *)
+  (* After ProcessProposal panicked at an ARBITRARY point (whatever the working tree had become)
+     and the deferred handler recovered (mux.go:483-507), the proposal cache is reset
+     (resetProposal(), mux.go:505-506; read from the source by gen muxorder): nothing keyed by
+     the aborted block's hash survives. *)
+  Theorem aborted_round_resets_cache n b' dirty :
+    n_cache S (apply_stale S n (StaleAborted S b' dirty)) = None /\
+    same_base n (apply_stale S n (StaleAborted S b' dirty)).
+  Proof.
+    cbn [apply_stale]. unfold abort_round. change process_panic_handler_resets with true. cbn iota.
+    split; [reflexivity|repeat split].
+  Qed.
+
+  (* Hence the block that was being processed when the fault hit -- or any other -- is executed
+     from the committed state on every path, exactly as on a replica without the fault. *)
+  Theorem aborted_round_harmless base n b' dirty p b :
+    path_ok base b p ->
+    run_path S p (apply_stale S n (StaleAborted S b' dirty)) b
+    = reference (path_cfg p n) (path_regs p n) (n_committed S n) b.
+  Proof.
+    intros Hok. destruct (aborted_round_resets_cache n b' dirty) as [Hc (Ha & Hb & Hcc)].
+    rewrite (path_reference p _ b base Hc Hok).
+    destruct p; cbn [path_cfg path_regs]; rewrite ?Ha, ?Hb, ?Hcc; reflexivity.
+  Qed.
+
+  Lemma mux_panic_handlers_reset :
+    process_panic_handler_resets = true /\ prepare_panic_handler_resets = true.
+  Proof. split; reflexivity. Qed.
+
 End MuxProofs.
 
 (* ------------------------------------------------------------------ *)
@@ -1041,15 +1079,15 @@ Proof. vm_compute. split; reflexivity. Qed.
 
 (* Non-vacuity of [stale_rounds_harmless]: a failed own round and a failed foreign round
    precede the block; hypotheses hold and the left disjunct is what happens. *)
-Definition toy_stale : list stale :=
-  [StalePrepared [42] toy_hd [[5; 5]] toy_votes [];
-   StaleProcessed (mkBlock toy_hd toy_txs toy_votes [] [7; 7; 7])].
+Definition toy_stale : list (stale toy) :=
+  [StalePrepared toy [42] toy_hd [[5; 5]] toy_votes [];
+   StaleProcessed toy (mkBlock toy_hd toy_txs toy_votes [] [7; 7; 7])].
 Example toy_stale_hypotheses :
   stale_ok toy toy_n1 toy_stale /\ b_hash toy_block <> [] /\
   commit_as_prepared toy (fold_left (apply_stale toy) toy_stale toy_n1) toy_block /\
   toy_obs (run_path toy (PlainReplay toy) (fold_left (apply_stale toy) toy_stale toy_n1) toy_block)
   = toy_obs (run_path toy (PlainReplay toy) toy_n1 toy_block) /\
-  toy_obs (run_path toy (ProcessProposal toy) (fold_left (apply_stale toy) [StalePrepared [42] toy_hd [[5; 5]] toy_votes []] toy_n1) toy_block)
+  toy_obs (run_path toy (ProcessProposal toy) (fold_left (apply_stale toy) [StalePrepared toy [42] toy_hd [[5; 5]] toy_votes []] toy_n1) toy_block)
   = toy_obs (run_path toy (PlainReplay toy) toy_n1 toy_block).
 Proof.
   split.
@@ -1063,10 +1101,10 @@ Qed.
 (* Non-vacuity of [replicas_agree_with_failed_rounds]: replica 1 has a failed own round
    before height 1, replica 2 a failed foreign round; both then commit the same block. *)
 Definition toy_ops_stale1 : list (op toy) :=
-  [OpStale toy (StalePrepared [42] toy_hd [[5; 5]] toy_votes []); OpCheck toy [1; 1];
+  [OpStale toy (StalePrepared toy [42] toy_hd [[5; 5]] toy_votes []); OpCheck toy [1; 1];
    OpBlock toy (ProcessProposal toy) toy_block].
 Definition toy_ops_stale2 : list (op toy) :=
-  [OpStale toy (StaleProcessed (mkBlock toy_hd toy_txs toy_votes [] [7; 7; 7]));
+  [OpStale toy (StaleProcessed toy (mkBlock toy_hd toy_txs toy_votes [] [7; 7; 7]));
    OpBlock toy (PlainReplay toy) toy_block].
 Example toy_failed_rounds_hypotheses :
   ops_ok_from toy toy_base toy_n1 toy_ops_stale1 /\ ops_ok_from toy toy_base toy_n2 toy_ops_stale2 /\
@@ -1105,3 +1143,19 @@ Example toy_upgrade_block_executes :
   option_map (fun x => map (o_end_events toy) (snd x)) (observe toy (run toy toy_n1 toy_ops1))
   = Some [[300]; [300; 777]].
 Proof. vm_compute. reflexivity. Qed.
+
+(* Without the reset in the panic handler (seeded C01-5) the half-executed working tree stays
+   keyed by the block's hash without results; when that block is decided, BeginBlock does not
+   reset it (same hash) and executes on top of the dirty tree: the result differs from the
+   reference (here the metadata check fails, i.e. this replica cannot finalize the block). *)
+Theorem aborted_round_without_reset_refuted :
+  exists (n : node toy) (b : block) (dirty : sg_state toy),
+    n_cache toy n = None /\
+    finalize toy (abort_round toy false n b dirty) b
+    <> reference toy (n_cfg toy n) (n_apps toy n) (n_committed toy n) b /\
+    finalize toy (abort_round toy true n b dirty) b
+    = reference toy (n_cfg toy n) (n_apps toy n) (n_committed toy n) b /\
+    reference toy (n_cfg toy n) (n_apps toy n) (n_committed toy n) b <> None.
+Proof.
+  exists toy_n1, toy_block, 7. split; [reflexivity|]. vm_compute. repeat split; discriminate.
+Qed.
